@@ -147,7 +147,9 @@ def input_violation(cfg, w):
   return worst
 
 
-def judge(ctx, site, cfg, w_in, w_out, fin=None):
+def judge(ctx, site, cfg, w_in, w_out, fin=None, w_cls=None):
+  """w_cls: the output of the eager pass that fed the attribution hook `fin` (graph-mode cases): the mechanism
+  predicate compares the hook's bias with the returned one, which is only meaningful within one execution."""
   fails, ratios = oracle(cfg, w_in, w_out)
   for r in ratios:
     ctx.near(r, site)
@@ -158,7 +160,7 @@ def judge(ctx, site, cfg, w_in, w_out, fin=None):
   if not fails:
     ctx.check(site + "/pwlfeas", True)
   for f in fails:
-    fk = findings.classify_c04(cfg, f, w_in, w_out, fin)
+    fk = findings.classify_c04(cfg, f, w_in, w_out if w_cls is None else w_cls, fin)
     ctx.check(site + "/pwlfeas", False,
               "%s violated for unit %d by %.3g (tol %.3g)" % (f["kind"], f["unit"], f["amount"], f["tol"]),
               info=f, finding=fk)
@@ -220,11 +222,14 @@ def run_case(ctx, case):
         monotonicity=cfg["mono"], convexity=cfg["conv"], lengths=tf.constant(lengths32),
         output_min=omin, output_max=omax, output_min_constraints=cmn, output_max_constraints=cmx,
         num_projection_iterations=cfg["iters"])
+    w_cls = None
     if ex != "eager":
-      c(tf.constant(w))     # eager pass only feeds the _finalize_constraints hook used to attribute failures
+      w_cls = c(tf.constant(w)).numpy()     # eager pass only feeds the _finalize_constraints hook used to attribute failures
     out = modes.call(tf, ex, c, tf.constant(w)).numpy()
+    if w_cls is not None and not float(np.abs(out.astype(np.float64) - w_cls).max()) <= 1e-3 * core.scale_of(w, out):
+      w_cls, _state["fin"] = None, None     # graph and eager disagree: nothing to attribute
     site = "PWLCalibrationConstraints.__call__"
-    fails = judge(ctx, site, cfg, w, out, _state["fin"])
+    fails = judge(ctx, site, cfg, w, out, _state["fin"], w_cls)
     if not fails and input_violation(cfg, out) <= 1e-6 * core.scale_of(out):
       out2 = modes.call(tf, ex, c, tf.constant(out)).numpy()
       d = float(np.abs(out2.astype(np.float64) - out).max())
@@ -243,11 +248,14 @@ def run_case(ctx, case):
           weights=t, monotonicity=cfg["mono"], output_min=omin, output_max=omax,
           output_min_constraints=cmn, output_max_constraints=cmx, convexity=cfg["conv"],
           lengths=lengths_t, num_projection_iterations=cfg["iters"])
+    w_cls = None
     if ex != "eager":
-      proj(tf.constant(w))
+      w_cls = proj(tf.constant(w)).numpy()
     out = modes.call(tf, ex, proj, tf.constant(w)).numpy()
+    if w_cls is not None and not float(np.abs(out.astype(np.float64) - w_cls).max()) <= 1e-3 * core.scale_of(w, out):
+      w_cls, _state["fin"] = None, None
     site = "project_all_constraints"
-    judge(ctx, site, cfg, w, out, _state["fin"])
+    judge(ctx, site, cfg, w, out, _state["fin"], w_cls)
   else:
     kp = np.concatenate([[cfg["kp0"]], cfg["kp0"] + np.cumsum(np.asarray(cfg["lengths"], dtype=np.float64))])
     if cfg["cyclic"]:
